@@ -150,6 +150,8 @@ type Machine struct {
 	lastSnapDiff  string
 	panicMsg      string
 	kvConflicts    int
+	encBlobs       []*Blob
+	lastHexID      string
 	reflCalls      int
 	wsConns        []*wsConn
 	urlReg         map[*Term]*urlParts
